@@ -117,7 +117,7 @@ PROPS = {
         level_note=_CHAIN_NOTE,
     ),
     "C03": dict(
-        tie=["Ucan.Props.Tie.ChainOrder", "Ucan.Props.Tie.PolicyMatch"],
+        tie=["Ucan.Props.Tie.ChainOrder", "Ucan.Props.Tie.ChainArgs", "Ucan.Props.Tie.PolicyMatch"],
         props_module="Ucan.Props.C03",
         streams=["chain"],
         filter=_chain_filter(clauses=["policy", "hook"]),
